@@ -1,0 +1,8 @@
+//go:build verif
+
+package eval
+
+import "grol.io/grol/object"
+
+// Verification harness accessor (build tag verif only): the session's macro store.
+func (s *State) VerifMacroEnv() *object.Environment { return s.macroState }
